@@ -332,7 +332,7 @@ impl Repeat {
         self.count += 1;
         match self.repeater {
             Repeater::Finite(n) => {
-                self.repeater = Repeater::Finite(n - 1);
+                self.repeater = Repeater::Finite(n.saturating_sub(1));
                 n > 1
             }
             Repeater::Infinite => true,
